@@ -93,6 +93,9 @@ pub mod vp_str {
         ensures #[trigger] str_starts_with_spec::<char>(s, c)
             == (s.spec_bytes().len() > 0 && s.spec_bytes()[0] == c as u8);
 
+    pub broadcast axiom fn ax_starts_with_str(s: &str, p: &str)
+        ensures #[trigger] str_starts_with_spec::<&str>(s, p) == is_prefix(p.spec_bytes(), s.spec_bytes());
+
     // ---- str::strip_prefix(&str)
     pub uninterp spec fn str_strip_prefix_spec<'a, P>(s: &'a str, p: P) -> Option<&'a str>;
 
@@ -186,6 +189,6 @@ pub mod vp_str {
 
     pub broadcast group group_vp_str {
         ax_str_len_bound, ax_str_ext, ax_str_ext_view, ax_ascii_boundary, ax_find_char, ax_contains_char, ax_contains_char2,
-        ax_starts_with_char, ax_strip_prefix_str, ax_parse_u16, ax_parse_u16_value, ax_parse_ipv6, ax_slice_contains_u8,
+        ax_starts_with_char, ax_starts_with_str, ax_strip_prefix_str, ax_parse_u16, ax_parse_u16_value, ax_parse_ipv6, ax_slice_contains_u8,
     }
 }
